@@ -355,7 +355,7 @@ func elemSites(c *core.Ctx) []*elemSite {
 			}
 		}
 		if st.status == "" {
-			if r, ok := tableGet(elemTable, st.key()); ok {
+			if r, ok := tableGetMoved(c, elemTable, st.key()); ok {
 				st.status, st.why = "table", r
 			} else {
 				st.status = "open"
